@@ -146,6 +146,7 @@ typedef struct {
 	uint8_t flags;		/* bit0 BIND2CPU, bit1 CLOEXEC */
 	uint8_t skip_first;
 	uint8_t attach_first;	/* a helper thread becomes thread 0 via tp_thread_attach_first (needs skip_first) */
+	uint8_t slow_stop;	/* 0 none; k+1: the stop hook of thread k takes ~1.5 ms before it reports (17 = the virtual thread) */
 	uint8_t nmsgs;		/* in-flight messages sent right before shutdown */
 	uint8_t msg_pvt;	/* some of them to the virtual thread */
 	uint8_t timer;		/* periodic 1 ms timer on a thread */
@@ -256,6 +257,7 @@ typedef struct {
 	uint8_t nch;
 	uint8_t exit_code[C06C_MAX_CH];
 	uint8_t by_signal[C06C_MAX_CH];	/* the child is killed with SIGKILL instead of exiting by itself */
+	uint8_t not_child[C06C_MAX_CH];	/* the watched process is a grandchild re-parented away from the test process: the pool thread cannot reap it */
 	uint8_t ncmds;
 	c06c_cmd cmds[C06C_MAX_CMDS];
 	tp_plans plans;
@@ -306,6 +308,8 @@ typedef struct {
 				 * 4 (dispatch tasks) first callback returns NONE without stopping anything: the task must stay silent
 				 *   until the harness calls tp_task_enable(1) later, then it goes on like policy 0 */
 	uint8_t rearm;		/* when the window is full: reset it (offset = win_off, transfer_size = win_len) and CONTINUE */
+	uint8_t close_on_destroy;	/* the task runs on a dup() of the socket with TP_TASK_F_CLOSE_ON_DESTROY: the harness' own descriptor keeps the
+				 * open file description (and with it any forgotten epoll registration) alive after the destroy */
 	uint32_t sndbuf;	/* SO_SNDBUF of the task's socket for send tasks (0 = default) */
 	tp_plans plans;
 } c16_scn;
@@ -328,6 +332,7 @@ typedef struct {
 	uint32_t cb_while_paused;	/* policy 4: callbacks between the declining return and tp_task_enable(1) */
 	uint8_t paused;			/* policy 4 really paused the task */
 	int32_t resume_rc;		/* tp_task_enable(1) */
+	uint8_t ident_open_after_destroy;	/* close_on_destroy: the task's descriptor was still open when tp_task_destroy() had returned */
 	uint64_t sent_total;		/* bytes the peer wrote (receive task) */
 	uint64_t peer_received;		/* bytes the peer read (send task) */
 	uint32_t peer_mismatch;		/* send task: first byte offset at which the peer's data differs from the window (UINT32_MAX none) */
